@@ -242,6 +242,13 @@ func c03tGen(g *hx.Gen) {
 	emit := func(l layout, steps []string) {
 		g.Case(hx.HS(l.site), hx.HS(l.files), hx.HS(strings.Join(steps, ";")))
 	}
+	// a PUBLIC page that includes a protected partial: `.Include` reads below the site root and no
+	// protection applies to it (known finding C03-template-includes-protected); kept to a few cases
+	// so that it masks nothing else
+	inc := layout{"basicauth bob pw /secret\ntemplates / .html",
+		"/home.html=t10;/digest.html=t11,i/secret/part.html;/secret/part.html=t27", nil}
+	emit(inc, []string{"/digest.html -"})
+	emit(inc, []string{"/digest.html bob:pw", "/secret/part.html -", "/digest.html bob:wrong", "/home.html -"})
 	for _, l := range layouts {
 		var paths []string
 		for _, f := range strings.Split(l.files, ";") {
